@@ -19,7 +19,8 @@ package main
 //
 // Over a spy bottom every op is followed by `calls 0` (the exact calls that reached the bottom).  Over an
 // opaque bottom (disk; any stack that contains a cache) the model cannot predict results: ops are sent as
-// `q <fs> <word> …` / `qview` (answer projected to refused | done).
+// `q <fs> <word> …` (answer projected to refused | done); `view` on such a stack is compared with one tolerance (a
+// disk root opens views on existing directories only, the model does not know the host; see checks/c03.py).
 
 import (
 	"bufio"
@@ -43,7 +44,7 @@ var layerSpells = []struct {
 }
 
 var climbers = []string{"..", "../a", "a/../..", "../in/a", "in/../../a", "/..", "./..", "../..", "../../a",
-	"../" + sentName + "_0", "in/../../" + sentName + "_0", "a/../../in", "../../..", "..//a", "../.", "in/in/../../../a"}
+	"../" + sentName + "_0", "in/../../" + sentName + "_0", "a/../../in", "../../..", "..//a", "../.", "in/in/../../../a", "../inx/a", "../inx", "in/../../inx/a", "../../inx/a"}
 var rootSpells = []string{"", ".", "/", "./", "a/..", "//", "in/..", "in/a/../.."}
 
 type histGen struct {
